@@ -34,27 +34,48 @@ def lossless(tag, bw, t, tsize, isf):
         return "(x)" if t in ("double", "float") else None
     return None
 
-LM = 5
 QUICK_CFG = ("pcm_u8", "pcm_16le", "pcm_24be", "pcm_32le", "float_le", "double_be", "ulaw", "alaw")
+
+def is_quick(tag, t, sel):
+    """quick tier = the combinations measured to finish in well under two minutes; float<->int conversions through the
+    staging loops (minutes to > 10 min each) are thorough-tier only - their arithmetic is covered by C02 per kernel"""
+    if tag not in QUICK_CFG:
+        return False
+    if tag.startswith("pcm") or tag in ("ulaw", "alaw"):
+        return t in ("short", "int")
+    if tag.startswith("float"):
+        return t == "float"
+    if tag.startswith("double"):
+        return t == "double"
+    return False
+
 
 def sg_harnesses(sel_list=("SEL_RD", "SEL_WR"), quick_types=None):
     out = []
     for tag, f, init, fmt, bw, be in SG:
         for t, tn, tsize, isf in TYPES:
             for sel in sel_list:
+              for probe in (0, 1):
+                if probe and not (tag == "alaw" and t == "float" and sel == "SEL_WR"):
+                    continue
+                LM = 2 if tag in ("ulaw", "alaw") else 5     # the 8193-entry G.711 tables with a symbolic index are the cost
                 d = {"CODEC_FILE": '"%s"' % f, "CODEC_INIT": init, "FMT": fmt, "BW": bw, "BE": be, "T": t, "TN": tn, "NDT": tn,
                      "IS_FLOAT_T": isf, sel: 1, "LMAX": LM, "MF_CAP": LM * bw + 3, "MF_MAXIO": LM * 8, "MF_NFILES": 2,
                      "LIBSNDFILE_VERIF_BUFFER_LEN": 8}
+                if tag in ("ulaw", "alaw"):
+                    d["IS_G711"] = 1
+                if probe:
+                    d["PROBE_g711range"] = 1
                 m = lossless(tag, bw, t, tsize, isf)
                 if sel == "SEL_FAULT":
                     d["MF_FAULTY"] = 1
                 d["LOSSLESS"] = 1 if (m and sel == "SEL_WR") else 0
                 d["RT_MASK(x)"] = m or "(x)"
                 heavy = isf and sel == "SEL_WR" and tag.startswith("pcm")
-                out.append(H("sg.%s.%s.%s" % (tag, tn, sel[4:]), "L3/sg_codec.c", link=["common"], stubs=["psf_log_printf", "psf_memset"],
+                out.append(H("sg.%s.%s.%s%s" % (tag, tn, sel[4:], ".probe_g711range" if probe else ""), "L3/sg_codec.c", kf=["g711range"], probe_for="g711range" if probe else None, link=["common"], stubs=["psf_log_printf", "psf_memset"],
                              defines=d, unwind=8, unwindset=["psf_fread.0:%d" % (LM * 8 + 1), "psf_fwrite.0:%d" % (LM * 8 + 1), "psf_memset.0:65"] + ["main.%d:%d" % (i, LM * bw + 5) for i in range(14)],
                              checks="mem", include_env=("log_stub", "memfile", "memset_model"), timeout=600, solver="cadical" if isf else "default",
-                             tiers=("thorough",) if (heavy or tag not in QUICK_CFG) else ("quick", "thorough"),
+                             tiers=("quick", "thorough") if is_quick(tag, t, sel) else ("thorough",),
                              functions=[init, "%s read_%s/write_%s entry points and array kernels" % (f, tn, tn)],
                              bounds="1 channel, request 1..5 items over an 8-byte staging buffer (crosses staging boundaries for every width > 1 byte), split point j symbolic, file length symbolic (incl. truncated mid-sample), all sample values"))
     return out
